@@ -417,13 +417,33 @@ def module_state_obligations(module):
                     b = b.value
                 if isinstance(b, ast.Name) and b.id in globals_ and (b.id not in loc or b.id in declared_global):
                     bad.append((qual, x.lineno, f".{x.func.attr}() on module-level {b.id}"))
+    # module-level *mutable* objects (dict / list / set displays or constructor calls) must not escape into objects the functions hand out:
+    # `obj.attr = GLOBAL`, `obj[k] = GLOBAL`, `return GLOBAL` make every holder share (and later write) the same state
+    mutable_globals = set()
+    for n in tree.body:
+        if isinstance(n, ast.Assign) and (isinstance(n.value, (ast.Dict, ast.List, ast.Set, ast.DictComp, ast.ListComp, ast.SetComp))
+                                          or (isinstance(n.value, ast.Call) and isinstance(n.value.func, ast.Name) and n.value.func.id in ("dict", "list", "set", "defaultdict", "OrderedDict"))):
+            for t in n.targets:
+                if isinstance(t, ast.Name):
+                    mutable_globals.add(t.id)
+
+    def visit_escape(fn, qual):
+        loc = locals_of(fn)
+        for x in ast.walk(fn):
+            if isinstance(x, ast.Assign) and isinstance(x.value, ast.Name) and x.value.id in mutable_globals and x.value.id not in loc:
+                if any(isinstance(t, (ast.Attribute, ast.Subscript)) for t in x.targets):
+                    bad.append((qual, x.lineno, f"module-level mutable {x.value.id} stored into an object (shared by reference)"))
+            if isinstance(x, ast.Return) and isinstance(x.value, ast.Name) and x.value.id in mutable_globals and x.value.id not in loc:
+                bad.append((qual, x.lineno, f"module-level mutable {x.value.id} returned (shared by reference)"))
     for n in tree.body:
         if isinstance(n, ast.FunctionDef):
             visit(n, n.name)
+            visit_escape(n, n.name)
         if isinstance(n, ast.ClassDef):
             for m in n.body:
                 if isinstance(m, ast.FunctionDef):
                     visit(m, f"{n.name}.{m.name}")
+                    visit_escape(m, f"{n.name}.{m.name}")
     out.append((f"no-hidden-state[{module}: no function writes module-level state]", not bad,
                 "; ".join(f"{q} line {ln}: {w}" for q, ln, w in bad[:4])))
     return out
